@@ -148,7 +148,7 @@ theorem exec_callExpr {G : GCtx} (ok : G.OK) (fuel : Nat) (hcs : ∀ k, k < fuel
                 have := exec_usercall ok f (hcs f (Nat.lt_succ_self _)) hpi hpj sp dep hi hlo hspv hstack args f st s ws hp hev
                   gs code gs' i a b mem hseq hat hrs hsz hnl hci
                 rw [hcu] at this
-                obtain ⟨a', b', mem', hst, rep', hres'⟩ := this
+                obtain ⟨a', b', mem', hst, rep', hres', _⟩ := this
                 have := hres' hf w rfl
                 subst this
                 rw [hs.2.2.2.1] at hst
@@ -170,6 +170,152 @@ def ExecE (K : PCtx) (e' : AExpr) (st : X.St) (r : Res Val) : Prop :=
     genExpr K.ctx e' .A gs = .ok (code, gs') → At K.env.ds i (K.low code) → Rep K st mem →
     gs'.size ≤ K.S → K.nlocals ≤ gs.offset → ConstsIn K gs' →
     OutE K (cfg i a b mem) st.io r (i + (K.low code).length)
+
+/-! ### Calls of pure functions in operands -/
+
+theorem noLoc_of_rep {G : GCtx} {pi : PInfo} {sp dep : Nat} {hi : Nat → Word} {σ : X.St} {mem : Mem}
+    (rep : Rep (KOf G pi sp dep hi) σ mem) : NoLoc G.pnames σ := by
+  intro g hg
+  exact rep.gvis g (List.mem_append_right _ (by simpa using hg))
+
+/-- The call of a pure function, as an operand: the state it leaves differs from the one before
+    in the step counter and the call log only. -/
+theorem callLeaf_of_spec {G : GCtx} (ok : G.OK) (pk : PureOk G.xc) {pi : PInfo} (hpi : pi ∈ G.procs) (sp dep : Nat)
+    (hi : Nat → Word) (hlo : G.lo ≤ sp) (hspv : sp + G.S pi + pi.po + pi.p.formals.length ≤ G.spv + 1)
+    (hstack : G.spv ≤ sp + dep * G.smax) (F : Nat) (hcs : ∀ k, k < F → CallSpec G k) :
+    CallLeaf (KOf G pi sp dep hi) G.pnames F := by
+  intro g args σ v σ' hg himp hargs hnl hev
+  have hgm : g ∈ G.pnames := by simpa using hg
+  change X.eval F G.xc (.call g args) σ = _ at hev
+  cases F with
+  | zero => unfold X.eval at hev; simp at hev
+  | succ f =>
+    cases ht : X.tick G.xc σ with
+    | none => unfold X.eval at hev; rw [ht] at hev; simp at hev
+    | some st =>
+      have hs := tick_same _ _ _ ht
+      have hl : st.locals.lookup g = none := by rw [hs.2.1]; exact hnl g hg
+      obtain ⟨p, hp⟩ := ok.pnames_mem g hgm
+      obtain ⟨pj, hpj, hpp, hname0⟩ := ok.resolve g p hp
+      have hname : pj.p.name = g := by rw [hpp]; exact hname0
+      have hres : X.resolveCallee G.xc st g = .user pj.p := by
+        unfold X.resolveCallee
+        rw [hl, hp, hpp]
+      cases hf : pj.p.isFunc with
+      | false =>
+        obtain ⟨w, hw⟩ := eval_call_proc f G.xc g args σ st pj.p ht hres hf
+        rw [hw] at hev; cases hev
+      | true =>
+        rw [eval_call_user f G.xc g args σ st pj.p ht hres hf] at hev
+        by_cases ho : (!X.orderOk G.xc st args) = true
+        · rw [if_pos ho] at hev; cases hev
+        rw [if_neg ho] at hev
+        cases hea : X.evalArgs f G.xc args st with
+        | undef w => rw [hea] at hev; simp [Res.bind] at hev
+        | exit c s => rw [hea] at hev; simp [Res.bind] at hev
+        | ok vs s =>
+          rw [hea] at hev
+          simp only [Res.bind] at hev
+          cases hcu : X.callUser f G.xc pj.p vs s with
+          | undef w => rw [hcu] at hev; simp at hev
+          | exit cd s' => rw [hcu] at hev; simp at hev
+          | ok r s' =>
+            rw [hcu] at hev
+            simp only at hev
+            cases r with
+            | none => simp at hev
+            | some w =>
+              simp only [Res.ok.injEq, Val.int.injEq] at hev
+              obtain ⟨hw, hs'⟩ := hev
+              subst hw; subst hs'
+              obtain ⟨ws, hws⟩ := callUser_ints f G.xc pj.p vs s (ok.formals_val pj hpj) (by rw [hcu]; intro w h; simp at h)
+              subst hws
+              have hsA := evalArgs_pure G.xc args f st s _ hargs hea
+              have hlk : G.xc.genv.lookup g = some (.proc pj.p) := by rw [hp, hpp]
+              have hsC : Sim s s' := ((pure_all G.xc pk f).2.2.1 (keys s.locals) g pj.p _ hlk himp s rfl).1 _ _ hcu
+              have hsim : Sim s' σ := hsC.symm.trans ((Sim.ofSame hsA).symm.trans (Sim.ofSame hs).symm)
+              intro gs code gs' i a b mem hgen hat hr hsz hnl' hci
+              rw [annot_call] at hgen
+              obtain ⟨kind, hk, hseq⟩ := genExpr_call_inv _ _ _ _ _ _ _ _ hgen
+              obtain ⟨_, hk'⟩ := exprCallKind_inv _ _ _ _ _ _ hk
+              rcases hk' with ⟨hne, _⟩ | ⟨_, sym, hsym, hkind⟩
+              · exact absurd rfl hne
+              obtain ⟨sym', hsym', hty⟩ := ok.callee_sym pi hpi pj hpj
+              rw [hname] at hsym'
+              have : sym = sym' := by
+                have h1 : (G.ctxOf pi).tbl.lookup (G.ctxOf pi).scope g = .ok sym := hsym
+                have h2 : (G.ctxOf pi).tbl.lookup (G.ctxOf pi).scope g = .ok sym' := hsym'
+                rw [h1] at h2
+                exact Except.ok.inj h2
+              subst this
+              have hkk : kind = pj.callKind := by
+                rw [hkind, if_pos (hty.mpr hf)]
+                unfold PInfo.callKind
+                rw [hf, hname]
+                rfl
+              rw [hkk] at hseq
+              have hrs : Rep (KOf G pi sp dep hi) st mem := hr.same hs
+              have := exec_usercall ok f (hcs f (Nat.lt_succ_self _)) hpi hpj sp dep hi hlo hspv hstack args f st s ws hargs hea
+                gs code gs' i a b mem hseq hat hrs hsz hnl' hci
+              rw [hcu] at this
+              obtain ⟨a', b', mem', hst, rep', hres', frm⟩ := this
+              have := hres' hf w rfl
+              subst this
+              refine ⟨b', mem', ?_, rep'.sim hsim, frm⟩
+              rw [hs.2.2.2.1, hsim.2.2.2.1] at hst
+              exact hst
+
+section
+variable {G : GCtx} (ok : G.OK) (pk : PureOk G.xc) {pi : PInfo} (hpi : pi ∈ G.procs) (sp dep : Nat)
+    (hi : Nat → Word) (hlo : G.lo ≤ sp) (hspv : sp + G.S pi + pi.po + pi.p.formals.length ≤ G.spv + 1)
+    (hstack : G.spv ≤ sp + dep * G.smax) (F : Nat) (hcs : ∀ k, k < F → CallSpec G k)
+include ok pk hpi hlo hspv hstack hcs
+
+/-- A condition with calls of pure functions. -/
+theorem condOK_pp (c : X.Expr) (hpp : ppE G.pnames G.xc.impure c = true) : CondOK (KOf G pi sp dep hi) F c := by
+  have wf := ok.wfs pi hpi sp dep hi hlo hspv
+  have hps : ∀ g, G.pnames.contains g = true → ∃ p, G.xc.genv.lookup g = some (.proc p) :=
+    fun g hg => ok.pnames_mem g (by simpa using hg)
+  have hleaf : ∀ k, k ≤ F → CallLeaf (KOf G pi sp dep hi) G.pnames k :=
+    fun k hk => callLeaf_of_spec ok pk hpi sp dep hi hlo hspv hstack k (fun j hj => hcs j (by omega))
+  refine ⟨?_, ?_, ?_, ?_⟩
+  · intro st mem cd s hr
+    exact eval_pp_noexit G.xc G.pnames hps pk F c st cd s hpp (noLoc_of_rep hr)
+  · intro st mem v s hr hev
+    exact ((eval_pp_sim G.xc G.pnames hps pk F c st v s hpp (noLoc_of_rep hr) hev).2.2.2.1).symm
+  · intro st mem v s hr hev m hm
+    exact hm.sim (eval_pp_sim G.xc G.pnames hps pk F c st v s hpp (noLoc_of_rep hr) hev)
+  · intro st mem w s hr hev
+    exact expr_pp_correct (KOf G pi sp dep hi) wf.toWF G.pnames pk hps F hleaf c st w s hpp (noLoc_of_rep hr) hev
+
+/-- A right-hand side with calls of pure functions. -/
+theorem execE_pp (e : X.Expr) (hpp : ppE G.pnames G.xc.impure e = true) (st : X.St) :
+    ExecE (KOf G pi sp dep hi) (optExpr (annotate (fun _ => none) e)) st (X.eval F G.xc e st) := by
+  intro gs code gs' i a b mem hgen hat hr hsz hnl hci
+  have hC := condOK_pp ok pk hpi sp dep hi hlo hspv hstack F hcs e hpp
+  unfold OutE
+  cases hev : X.eval F G.xc e st with
+  | undef w => trivial
+  | exit cd s => exact absurd hev (hC.noexit st mem cd s hr)
+  | ok v s =>
+    cases v with
+    | arr r => trivial
+    | int w =>
+      obtain ⟨b', mem', st1, rep1, _⟩ := hC.exec st mem w s hr hev gs code gs' i a b mem hgen hat hr hsz hnl hci
+      refine ⟨b', mem', ?_, hC.rep st mem _ s hr hev _ rep1⟩
+      rw [hC.io st mem _ s hr hev]
+      exact st1
+
+end
+
+theorem condOK_5 {G : GCtx} (ok : G.OK) {pi : PInfo} (hpi : pi ∈ G.procs) (sp dep : Nat)
+    (hi : Nat → Word) (hlo : G.lo ≤ sp) (hspv : sp + G.S pi + pi.po + pi.p.formals.length ≤ G.spv + 1)
+    (hstack : G.spv ≤ sp + dep * G.smax) (F : Nat) (hcs : ∀ k, k < F → CallSpec G k)
+    (c : X.Expr) (h : cond5 G.pk G.pnames G.xc.impure c = true) : CondOK (KOf G pi sp dep hi) F c := by
+  simp only [cond5, Bool.or_eq_true, Bool.and_eq_true] at h
+  rcases h with hp | ⟨hpk, hpp⟩
+  · exact condOK_pure _ (ok.wfs pi hpi sp dep hi hlo hspv).toWF F c hp
+  · exact condOK_pp ok (ok.pure_ok hpk) hpi sp dep hi hlo hspv hstack F hcs c hpp
 
 theorem exec_assign_eq (f : Nat) (xc : X.Ctx) (n : String) (e : X.Expr) (σ st : X.St) (ht : X.tick xc σ = some st) :
     X.exec (f + 1) xc (.assign n e) σ =
@@ -352,7 +498,7 @@ theorem execS_callStmt {G : GCtx} (ok : G.OK) (fuel : Nat) (hcs : ∀ k, k < fue
               have := exec_usercall ok f (hcs f (Nat.lt_succ_self _)) hpi hpj sp dep hi hlo hspv hstack args f st s ws hp hev
                 gs code gs' i a b mem hgen hat hrs hsz hnl hci
               rw [hcu] at this
-              obtain ⟨a', b', mem', hst, rep', _⟩ := this
+              obtain ⟨a', b', mem', hst, rep', _, _⟩ := this
               rw [hs.2.2.2.1] at hst
               exact ⟨a', b', mem', hst, rep'⟩
 
@@ -360,7 +506,7 @@ theorem execS_callStmt {G : GCtx} (ok : G.OK) (fuel : Nat) (hcs : ∀ k, k < fue
 
 def StmtLSpec (G : GCtx) (fuel : Nat) : Prop :=
   ∀ pi ∈ G.procs, ∀ sp dep hi, G.lo ≤ sp → sp + G.S pi + pi.po + pi.p.formals.length ≤ G.spv + 1 → G.spv ≤ sp + dep * G.smax →
-    ∀ ss σ, okS4L G.pnames ss = true →
+    ∀ ss σ, okS5L G.pk G.pnames G.xc.impure ss = true →
       ExecSL (KOf G pi sp dep hi) (G.iEpi pi) (optStmts (annotSL (fun _ => none) ss)) σ (X.execSeq fuel G.xc ss σ)
 
 theorem callE_inv (ps : List String) (e : X.Expr) (h : callE ps e = true) :
@@ -398,11 +544,15 @@ theorem all_correct {G : GCtx} (ok : G.OK) : ∀ fuel, StmtSpec G fuel ∧ StmtL
         | skip => exact execS_skip _ _ wf _ σ
         | stop => exact execS_stop _ _ wf _ σ
         | ret e =>
-          simp only [okS4, Bool.or_eq_true] at hok
+          simp only [okS5, rhs5, Bool.or_eq_true, Bool.and_eq_true] at hok
           have : optStmt (annotS (fun _ => none) (.ret e)) = .ret (optExpr (annotate (fun _ => none) e)) := by
             simp [annotS, optStmt]
           rw [this]
-          rcases hok with hpure | hcall
+          rcases hok with (hpure | hcall) | ⟨hpk, hpp⟩
+          rotate_left 2
+          · apply execS_retE (KOf G pi sp dep hi) _ wf F e _ σ
+            intro st _
+            exact execE_pp ok (ok.pure_ok hpk) hpi sp dep hi hlo hspv hstack F hcsF e hpp st
           · exact execS_ret (KOf G pi sp dep hi) _ wf _ e σ hpure
           · obtain ⟨g, args, rfl, hg, hargs⟩ := callE_inv _ _ hcall
             apply execS_retE (KOf G pi sp dep hi) _ wf F (.call g args) _ σ
@@ -410,11 +560,15 @@ theorem all_correct {G : GCtx} (ok : G.OK) : ∀ fuel, StmtSpec G fuel ∧ StmtL
             exact exec_callExpr ok F hcsF hpi sp dep hi hlo hspv hstack g args hg hargs st gs code gs' i a b mem
               hgen hat hr hsz hnl hci
         | assign n e =>
-          simp only [okS4, Bool.or_eq_true] at hok
+          simp only [okS5, rhs5, Bool.or_eq_true, Bool.and_eq_true] at hok
           have : optStmt (annotS (fun _ => none) (.assign n e)) = .assign n (optExpr (annotate (fun _ => none) e)) := by
             simp [annotS, optStmt]
           rw [this]
-          rcases hok with hpure | hcall
+          rcases hok with (hpure | hcall) | ⟨hpk, hpp⟩
+          rotate_left 2
+          · apply execS_assignE (KOf G pi sp dep hi) _ wf F n e _ σ
+            intro st _
+            exact execE_pp ok (ok.pure_ok hpk) hpi sp dep hi hlo hspv hstack F hcsF e hpp st
           · exact execS_assign (KOf G pi sp dep hi) _ wf _ n e σ hpure
           · obtain ⟨g, args, rfl, hg, hargs⟩ := callE_inv _ _ hcall
             apply execS_assignE (KOf G pi sp dep hi) _ wf F n (.call g args) _ σ
@@ -422,14 +576,14 @@ theorem all_correct {G : GCtx} (ok : G.OK) : ∀ fuel, StmtSpec G fuel ∧ StmtL
             exact exec_callExpr ok F hcsF hpi sp dep hi hlo hspv hstack g args hg hargs st gs code gs' i a b mem
               hgen hat hr hsz hnl hci
         | ite c t e =>
-          simp only [okS4, Bool.and_eq_true] at hok
-          exact execS_ite (KOf G pi sp dep hi) _ wf F c t e σ hok.1.1 (fun s => ihS' t s hok.1.2) (fun s => ihS' e s hok.2)
+          simp only [okS5, Bool.and_eq_true] at hok
+          exact execS_ite (KOf G pi sp dep hi) _ wf F c t e σ (condOK_5 ok hpi sp dep hi hlo hspv hstack F hcsF c hok.1.1) (fun s => ihS' t s hok.1.2) (fun s => ihS' e s hok.2)
         | «while» c b =>
-          simp only [okS4, Bool.and_eq_true] at hok
-          exact execS_while (KOf G pi sp dep hi) _ wf F c b σ hok.1 (fun s => ihS' b s hok.2)
-            (fun s => ihS' (.while c b) s (by simp [okS4, hok.1, hok.2]))
+          simp only [okS5, Bool.and_eq_true] at hok
+          exact execS_while (KOf G pi sp dep hi) _ wf F c b σ (condOK_5 ok hpi sp dep hi hlo hspv hstack F hcsF c hok.1) (fun s => ihS' b s hok.2)
+            (fun s => ihS' (.while c b) s (by simp [okS5, hok.1, hok.2]))
         | seq ss =>
-          simp only [okS4] at hok
+          simp only [okS5] at hok
           intro gs code gs' i a b mem hg hat hr hsz hnl hci
           rw [optStmt_seq, genStmt_seq] at hg
           cases ht : X.tick G.xc σ with
@@ -441,11 +595,11 @@ theorem all_correct {G : GCtx} (ok : G.OK) : ∀ fuel, StmtSpec G fuel ∧ StmtL
             rw [hs.2.2.2.1] at this
             exact this
         | syscall id args =>
-          simp only [okS4, Bool.and_eq_true, decide_eq_true_eq, List.all_eq_true] at hok
+          simp only [okS5, Bool.and_eq_true, decide_eq_true_eq, List.all_eq_true] at hok
           exact execS_syscall (KOf G pi sp dep hi) _ wf _ id args σ hok.1 hok.2
-        | assignSub n i e => simp [okS4] at hok
+        | assignSub n i e => simp [okS5] at hok
         | call g args =>
-          simp only [okS4, Bool.and_eq_true, List.all_eq_true, List.contains_iff_mem] at hok
+          simp only [okS5, Bool.and_eq_true, List.all_eq_true, List.contains_iff_mem] at hok
           exact execS_callStmt ok (F + 1) hcsF1 hpi sp dep hi hlo hspv hstack g args hok.1 hok.2 σ
       · intro pi hpi sp dep hi hlo hspv hstack ss σ hok
         have ihS' := ihS pi hpi sp dep hi hlo hspv hstack
@@ -459,7 +613,7 @@ theorem all_correct {G : GCtx} (ok : G.OK) : ∀ fuel, StmtSpec G fuel ∧ StmtL
           rw [← hg.1, execSeq_nil]
           exact ⟨a, b, mem, Steps.refl _ _, hr⟩
         | cons s rest =>
-          simp only [okS4L, Bool.and_eq_true] at hok
+          simp only [okS5L, Bool.and_eq_true] at hok
           intro gs code gs' i a b mem hg hat hr hsz hnl hci
           rw [optStmts_cons] at hg
           obtain ⟨c, gs1, cs, h1, h2, hcode⟩ := genStmts_cons_inv _ _ _ _ _ _ hg
